@@ -1,6 +1,7 @@
 import PlcProofs.Lemmas.FullParen
 import PlcProofs.Lemmas.RenderExpr
 import PlcModel.Parse.Lit
+import PlcProofs.Lemmas.MirrorExpr
 
 /-!
 # C10 — re-rendering round-trips
@@ -13,6 +14,10 @@ What is proved (for trees of unbounded size and depth):
   assignment of precedences to operators and whatever minimum precedence it is read at.  This is the
   statement behind the anchor "binary and comparison expressions always parenthesised": the round
   trip of expressions does not depend on the precedence table at all.
+* `mirror_reads_renderer_parenthesisation` — the same round trip for the **parser mirror itself** (the
+  functions of `PlcModel/Parse/Expr.lean` that the check compares with `parse_program`, driven by the
+  generated table): the renderer's parenthesisation of every expression tree over names, unary and binary
+  operators is read back to exactly that tree, with the fuel the driver uses.
 * `renderer_model_prints_full_parentheses` — the renderer model `Render.RE`, which the check compares
   lexeme by lexeme with `write_to_string` on every generated library, writes exactly that printing
   for the dsl tree of every expression over the operators of the generated precedence table.
@@ -37,6 +42,19 @@ open FullParen
 theorem expression_roundtrip (e : Expr) (minp : Nat) (rest : List Tok) (h : NoOp rest) :
     ∃ fuel, parseE fuel minp (prFull e ++ rest) = .ok e rest :=
   FullParen.roundtrip e minp rest h
+
+/-- The parser mirror reads the renderer's parenthesisation (`MX.E.full`: every binary node in parentheses,
+a unary operand in parentheses exactly when it is itself unary) of every tree back to the tree.
+`rest` is what follows: no operator, `#`, `(`, `[`, `.` or layout. -/
+theorem mirror_reads_renderer_parenthesisation (lp rp : Item) (hlp : lp.ty = "LeftParen") (hrp : rp.ty = "RightParen")
+    (e : MX.E) (he : e.Ok) (rest : List Item)
+    (hrest : ∀ t ts, rest = t :: ts → MX.okNext t.ty = true ∧ ∀ row ∈ Gen.prec, t.ty ≠ row.token) :
+    Parse.expression (Parse.fuelFor ((MX.E.full lp rp e).toks ++ rest).length) ((MX.E.full lp rp e).toks ++ rest)
+      = some (e.sx, rest) := by
+  rw [← MX.E.full_sx lp rp e]
+  apply MX.expression_reads _ rest _ (MX.E.full_wf lp rp hlp hrp e he 0) hrest
+  apply MX.fuelFor_enough
+  simp
 
 /-- The renderer model writes the fully parenthesised printing (operators = rows of `Gen.prec`). -/
 theorem renderer_model_prints_full_parentheses (e : Expr) (h : RenderExpr.OpsOk e) (k : Nat) :
